@@ -51,6 +51,11 @@ def reference(desc, role, seq):
         par = parse_shorthand(kw["pattern"])
         k = size_of(par)
         strand = 0 if st is None else st
+        sk = kw.get("strand", "from_location")        # the strand parameter overrides the location's
+        if sk == "both":
+            strand = 0
+        elif sk in (-1, 0, 1):
+            strand = sk
         pal = par[0] == "rep" or rcs(par[1]) == par[1] if par[0] == "rep" or set(par[1]) <= set("ACGT") else None
         spans_f = [(i, i + k) for i in range(a, b - k + 1) if occ(par, seq, i)]
         spans_r = [(i, i + k) for i in range(a, b - k + 1) if occ(par, rcs(seq[i:i + k]), 0)]
@@ -98,6 +103,25 @@ def reference(desc, role, seq):
         return Fraction(0 if ok else -1), ([] if ok else [set(range(a, b))]), ok
     if name == "AvoidChanges" and "max_edits_percent" not in kw:
         return None, [], None     # needs the original: handled in check_against_original
+    if name == "EnforceChanges" and kw.get("reference") is None:
+        # initialised on the evaluated sequence itself: no position differs from the reference.
+        # objective: -|changes - amount| (amount given, or a percentage of the positions, default all);
+        # constraint: changes - minimum (minimum given, or ceil of a percentage, default all)
+        import math
+        L = len(kw["indices"]) if kw.get("indices") is not None else (b - a)
+        if role == "objective":
+            if kw.get("amount") is not None:
+                amount = Fraction(kw["amount"])
+            else:
+                pct = kw.get("amount_percent")
+                amount = Fraction(100 if pct is None else pct) * L / 100
+            return -abs(0 - amount), [], amount == 0
+        if kw.get("minimum") is not None:
+            minimum = Fraction(kw["minimum"])
+        else:
+            pct = kw.get("minimum_percent")
+            minimum = Fraction(math.ceil((100 if pct is None else pct) * L / 100.0))
+        return 0 - minimum, [], minimum <= 0
     if name == "SequenceLengthBounds":
         mx = kw["max_length"]
         ok = kw["min_length"] <= n and (mx is None or n <= mx)
